@@ -19,6 +19,19 @@ Outcome codes
                         failures still name the original variable
   ("equiv",)            must return an equivalent undefined (same class, same
                         observable behaviour)
+  ("attrerr",)          must raise AttributeError (dunder protocol probing:
+                        CHANGES 3.1.5 "Fix dunder protocol (copy/pickle/etc)
+                        interaction with Undefined objects"; hasattr() is False)
+
+Attribute names (attribute access section)
+  "access to non-dunder attributes" fails with UndefinedError (chainable:
+  returns a chainable undefined); only *dunder* names - two leading AND two
+  trailing underscores around a non-empty stem - are answered with
+  AttributeError so that Python's protocol probing keeps working.  The shape of
+  the name decides, nothing else: x, _x, __x, __x_y, __x_, x__, _x_, _x__ are all
+  ordinary attributes.  Names made of underscores only, or with three or more
+  underscores on a side that has a dunder-like other side, are ambiguous and not
+  in the table.
 """
 from __future__ import annotations
 
@@ -85,6 +98,59 @@ def expect(base: str, op: str, operand_is_undefined: bool = False):
     if op in ("in_list", "in_dict"):
         return ("weak", "isbool", None) if operand_is_undefined else ("weak", "is", False)
     raise KeyError(op)
+
+
+# attribute names of every underscore shape; (shape label, name)
+ATTR_NAMES = (
+    ("x", "x"), ("x", "some_attr"), ("_x", "_x"), ("_x", "_private"),
+    ("__x", "__x"), ("__x", "__foo"), ("__x_y", "__x_y"), ("__x_", "__a_"),
+    ("__x_", "__class_"), ("___x", "___x"), ("x_", "x_"), ("x__", "x__"), ("x__", "foo__"),
+    ("_x_", "_x_"), ("_x__", "_x__"), ("x__y", "x__y"),
+    ("dunder", "__x__"), ("dunder", "__nosuch_attr__"), ("dunder", "__x_y__"),
+)
+
+# ways an attribute of the undefined is accessed
+ATTR_WAYS_PY = ("py_getattr", "py_hasattr", "env_getattr", "attr_filter")
+ATTR_WAYS_TMPL = ("tmpl_dot", "tmpl_attr_filter", "tmpl_attr_filter_var")
+
+
+def attr_shape(name: str):
+    """-> 'dunder' | 'plain' | None (ambiguous: not in the table)"""
+    stem = name.strip("_")
+    if not stem:
+        return None
+    lead = len(name) - len(name.lstrip("_"))
+    trail = len(name) - len(name.rstrip("_"))
+    if lead >= 2 and trail >= 2:
+        return "dunder" if (lead, trail) == (2, 2) else None
+    return "plain"
+
+
+def expect_attr(base: str, name: str, way: str):
+    """Expected outcome of accessing attribute `name` of an undefined through
+    `way`; None when the documentation does not decide the cell."""
+    shape = attr_shape(name)
+    if shape is None:
+        return None
+    if shape == "dunder":
+        # only the Python-level probe is documented; what a template makes of a
+        # dunder name (item fallback, attr filter) is not
+        if way == "py_getattr":
+            return ("attrerr",)
+        if way == "py_hasattr":
+            return ("val", "is", False)
+        return None
+    chain = base == "ChainableUndefined"
+    if way == "py_hasattr":
+        # hasattr() only swallows AttributeError: the UndefinedError passes through
+        return ("val", "is", True) if chain else ERR
+    if way in ("py_getattr", "env_getattr", "attr_filter"):
+        return ("chain",) if chain else ERR
+    if way in ("tmpl_dot", "tmpl_attr_filter"):
+        return ("val", "eq", "") if chain else ERR
+    if way == "tmpl_attr_filter_var":       # {{ E|attr(n) is defined }}
+        return ("val", "eq", "False") if chain else ERR
+    raise KeyError(way)
 
 
 def debug_string_ok(s, origin):
